@@ -78,6 +78,9 @@ def model_skeletons() -> dict[str, dict]:
             "IntEnum": {"type": "integer", "enum": [-4, 0, 2]},
             "HolderA": obj({"req-e": ref("StrEnum"), "optE": ref("StrEnum"), "int.e": ref("IntEnum")}, ["req-e"]),
             "HolderB": obj({"inlineEnum": {"type": "string", "enum": ["x", "y"]}, "nullEnum": {"type": ["string", "null"], "enum": ["p", "q", None]}, "const-s": {"const": "fixed"}, "constI": {"const": 7}}, ["const-s"]),
+            "Type": {"type": "string", "enum": ["t1", "t2"]},
+            "Format": {"type": "integer", "enum": [1, 2]},
+            "HolderE": obj({"the-type": ref("Type"), "fmt": ref("Format"), "type-list": arr(ref("Type"))}, additionalProperties=False),
             "HolderD": obj({"null-int-e": {"enum": [1, 2, None]}, "intE-or-str": {"oneOf": [ref("IntEnum"), STR]}, "opt-null-ref": {"oneOf": [{"type": "null"}, ref("IntEnum")]}}, additionalProperties=False),
             "HolderC": obj({"e-list": arr(ref("StrEnum")), "req-el": arr(ref("IntEnum"))}, ["req-el"], additionalProperties=False),
         }
